@@ -165,6 +165,8 @@ def what(tag, toks, d):
         return "server reported peer id %s without a proof in the request (diag %s)" % (d[2] if len(d) > 2 else "?", d)
     if toks[0] == 4:
         return "client reported a server id that no received signature proves (step %s, diag %s)" % (d[2] if len(d) > 2 else "?", d)
+    if toks[0] == 5:
+        return "AuthenticatedDo returned server id %s that no response proves (diag %s)" % (d[2] if len(d) > 2 else "?", d)
     return "diag %s" % d
 
 
@@ -175,6 +177,11 @@ if __name__ == "__main__":
         "encoding/json round-trips the opaque state exactly (ClientPublicKey empty = absent); base64.URLEncoding is used as is",
         "peer id <-> public key is a bijection on the harness' keys (property C08)",
         "the random source never fails and never repeats a challenge",
+    ]
+    ctx.notes = [
+        "observed, allowed by the property's token clause: VerifyBearer does not compare the token's hostname with the request's, so a token is accepted at every hostname served with the same secret (counters server_accept_token_other_hostname_*)",
+        "observed: core/crypto's ECDSA Verify ignores bytes after the DER signature, so altered signature bytes can still verify; the harness asks the real verifier and describes such bytes as a re-encoding of the known signature (counter altered_signature_bytes_still_verify_keytype_3), not as a forgery",
+        "observed outside the property (robustness): a client-initiated request whose public-key decodes to more than ~650 bytes (a marshalled RSA-8192 key, or garbage from anyone) makes PeerIDAuthHandshakeServer.Run panic in addOpaqueParam (h.buf[len(opaqueVal):] with a value longer than the 1024-byte buffer); no identity is reported; the harness keeps keys below that size",
     ]
     standard_flow(ctx, dict(
         consts=consts,
